@@ -210,3 +210,52 @@ Lemma method_call_ignores mt o s a f c l :
   method_call mt o s (PVector l) a f = vector_op o s l /\
   method_call mt o s POther a f = Err TypeError.
 Proof. repeat split. Qed.
+
+(* ------------------------------------------------------------------ Spectrum.sample with every argument form *)
+Lemma sample_call_linear s pts f u : wave (conv s u) <> [] ->
+  sample_call MLinear s pts (FOk f) u = Ok (map XQ (sample s pts f u)).
+Proof. intros N. unfold sample_call, sample. simpl meth_min_points.
+  destruct (wave (conv s u)) as [|a t] eqn:E; [congruence|]. simpl Nat.leb. rewrite map_map. f_equal.
+  apply map_ext. intros x. destruct (inrange (a :: t) x); reflexivity. Qed.
+
+Lemma out_of_range_fill w f x : incr w ->
+  (x < wmin w -> inrange w x = false /\ fill_at f w x = fill_below f) /\
+  (wmax w < x -> inrange w x = false /\ fill_at f w x = fill_above f).
+Proof. intros Hi. pose proof (incr_wmin_le_wmax _ Hi) as Hw. split; intros Hx.
+  - split.
+    + destruct (inrange w x) eqn:R; auto. apply inrange_true in R. destruct R. exfalso. qc2q; lra.
+    + unfold fill_at. destruct f; simpl; auto. destruct (qltb x (wmin w)) eqn:Q; auto.
+      apply qltb_false in Q. exfalso. qc2q; lra.
+  - split.
+    + destruct (inrange w x) eqn:R; auto. apply inrange_true in R. destruct R. exfalso. qc2q; lra.
+    + unfold fill_at. destruct f; simpl; auto. destruct (qltb x (wmin w)) eqn:Q; auto.
+      apply qltb_iff in Q. exfalso. qc2q; lra. Qed.
+
+Lemma sample_call_table mt s pts fa u :
+  let s' := conv s u in
+  (mt = MUnknown -> sample_call mt s pts fa u = Err NotImplementedErr) /\
+  (mt <> MUnknown -> (length (wave s') < meth_min_points mt)%nat \/ fa = FBadShape ->
+     sample_call mt s pts fa u = Err ValueError) /\
+  (mt <> MUnknown -> (meth_min_points mt <= length (wave s'))%nat -> forall f, fa = FOk f ->
+     exists vals, sample_call mt s pts fa u = Ok vals /\ length vals = length pts /\
+       forall i, (i < length pts)%nat -> let x := nth i pts 0 in
+         (x < wmin (wave s') -> incr (wave s') -> nth i vals XUnmodelled = XQ (fill_below f)) /\
+         (wmax (wave s') < x -> incr (wave s') -> nth i vals XUnmodelled = XQ (fill_above f)) /\
+         (inrange (wave s') x = true -> mt = MLinear -> nth i vals XUnmodelled = XQ (interp (wave s') (value s') x)) /\
+         (inrange (wave s') x = true -> mt <> MLinear -> nth i vals XUnmodelled = XUnmodelled)).
+Proof. intros s'. unfold sample_call. fold s'. split; [intros ->; reflexivity|]. split.
+  - intros Hm [Hl| ->]; destruct mt; try congruence;
+      destruct (Nat.leb _ (length (wave s'))) eqn:L; try reflexivity;
+      apply Nat.leb_le in L; simpl in *; lia.
+  - intros Hm Hl f ->. apply Nat.leb_le in Hl.
+    assert (G : forall g : Qc -> xval, exists vals, Ok (map g pts) = Ok vals /\ length vals = length pts /\
+               forall i, (i < length pts)%nat -> nth i vals XUnmodelled = g (nth i pts 0)).
+    { intros g. exists (map g pts). split; auto. split; [apply map_length|]. intros i Hi. apply nth_map_in, Hi. }
+    destruct mt; try congruence; rewrite Hl;
+      match goal with |- exists vals, Ok (map ?g pts) = _ /\ _ => destruct (G g) as (vals & E & L & N) end;
+      exists vals; (split; [exact E|]); (split; [exact L|]); intros i Hi; cbv zeta; rewrite (N i Hi); set (x := nth i pts 0);
+      (split; [|split; [|split]]).
+    all: try (intros Hx Hi'; destruct (out_of_range_fill (wave s') f x Hi') as [A B];
+              first [destruct (A Hx) as [R ->] | destruct (B Hx) as [R ->]]; rewrite R; reflexivity).
+    all: try (intros R _; rewrite R; reflexivity).
+    all: try (intros R Hc; congruence). Qed.
